@@ -7,7 +7,9 @@ import (
 	"strconv"
 	"strings"
 
+	"github.com/cosmos/cosmos-sdk/codec"
 	sdk "github.com/cosmos/cosmos-sdk/types"
+	"github.com/jackalLabs/canine-chain/v4/app"
 
 	"github.com/jackalLabs/canine-chain/v4/wasmbinding"
 	storagetypes "github.com/jackalLabs/canine-chain/v4/x/storage/types"
@@ -19,8 +21,8 @@ import (
 // C07 — plan space accounting matches the files actually held.
 type C07 struct{ Seeded bool } // Seeded: starts from a pay-once file and a plan-paid file, each with a prover; small alphabet, deeper
 
-var c07Files = map[string]*sfile{"400": mkFile(seqBytes(9, 4), 1024), "600": mkFile(seqBytes(9, 6), 1024), "max": mkFile(seqBytes(9, 9), 1024), "neg": mkFile(seqBytes(9, 3), 1024)}
-var c07Size = map[string]int64{"400": 400_000_000, "600": 600_000_000, "max": 1<<63 - 1, "neg": -400_000_000}
+var c07Files = map[string]*sfile{"400": mkFile(seqBytes(9, 4), 1024), "600": mkFile(seqBytes(9, 6), 1024), "max": mkFile(seqBytes(9, 9), 1024), "neg": mkFile(seqBytes(9, 3), 1024), "gen": mkFile(seqBytes(9, 5), 1024)}
+var c07Size = map[string]int64{"400": 400_000_000, "600": 600_000_000, "max": 1<<63 - 1, "neg": -400_000_000, "gen": 300_000_000}
 var c07Users = []string{"U1", "U2"}
 
 type c07Model struct {
@@ -37,11 +39,23 @@ func (s C07) Name() string {
 	}
 	return "C07/plan-space"
 }
-func (C07) Config() world.Config {
-	return world.Config{
+func (s C07) Config() world.Config {
+	cfg := world.Config{
 		Accounts: []string{"U1", "U2", "P"},
 		Storage:  func(p *storagetypes.Params) { p.ProofWindow, p.CheckWindow = 3, 2 },
 	}
+	if s.Seeded {
+		// a file of U1 paid up front long ago whose paid term ends at height 4 (the chain starts at 2): it exists past its
+		// term until its owner deletes it or a reward block drops it for having no provers
+		cfg.GenesisMod = func(cdc codec.JSONCodec, gs app.GenesisState) {
+			var st storagetypes.GenesisState
+			cdc.MustUnmarshalJSON(gs[storagetypes.ModuleName], &st)
+			st.FileList = append(st.FileList, storagetypes.UnifiedFile{Merkle: c07Files["gen"].merkle, Owner: world.MakeAcct("U1").Bech, Start: 1, Expires: 4,
+				FileSize: c07Size["gen"], ProofInterval: 3, ProofType: 0, Proofs: []string{}, MaxProofs: 1, Note: "{}"})
+			gs[storagetypes.ModuleName] = cdc.MustMarshalJSON(&st)
+		}
+	}
+	return cfg
 }
 func (C07) Stores() []string { return []string{"storage", "bank"} }
 func (s C07) Init(env world.Env) mc.Model {
@@ -73,6 +87,7 @@ func (s C07) Init(env world.Env) mc.Model {
 		}
 		m.Files = append(m.Files, x[0]+"|"+x[1]+"|"+strconv.FormatInt(h, 10))
 	}
+	m.Files = append(m.Files, "U1|gen|1")
 	sort.Strings(m.Files)
 	return m
 }
